@@ -370,7 +370,13 @@ def execute(sc):
                    (m.method, m.target, tuple(sorted(n.lower() for n, _ in m.headers))) if m else ("garbage", e.get("garbage"))))
     ev.extend(("client",) + tuple(o) for o in out)
     ev.sort(key=repr)
-    faults = dict(w.net.faults_fired)
+    faults = {}
+    if w.net.faults_fired.get("connect_error"):
+        faults["connect_error"] = w.net.faults_fired["connect_error"]
+    refused = sum(1 for f in sc.get("faults", []) if f["kind"] == "proxy_connect_status") and sum(
+        1 for e in log if e["zone"] == "proxy" and e.get("msg") is not None and e["msg"].method.upper() == b"CONNECT")
+    if refused:
+        faults["proxy_refused_connect"] = refused
     reached = any(e.get("msg") is not None for e in log)
     states = {f"{e['zone']}:{'tls' if e['tls'] else 'plain'}:{e['msg'].method.decode('latin1') if e.get('msg') else 'garbage'}"
               for e in log}
